@@ -546,6 +546,16 @@ class Judge:
                 self.add_trace(t["kind"], c0, t["d"], t["visits"], t["pos"], t["crd"], dict(payload, level=l))
 
 
+def cleanup_scratch():
+    """remove this run's scratch .v/.vo/.glob files from /verif/build/cases"""
+    d = VERIF / "build" / "cases"
+    for f in list(d.glob(f"c02_*_{os.getpid()}_*")) + list(d.glob(f".c02_*_{os.getpid()}_*")) + list(d.glob(f"c02_*_{os.getpid()}.*")) + list(d.glob(f".c02_*_{os.getpid()}.*")):
+        try:
+            f.unlink()
+        except OSError:
+            pass
+
+
 def corpus_cases():
     d = VERIF / "corpus" / "C02"
     out = []
@@ -688,6 +698,7 @@ def run(chk: Check):
             n += 1
     chk.extra["oracle"] = "Storage.wf_tensorb false (Coq, vm_compute) on every distinct raw output; proved <-> wf_tensor in props/C02.v"
     chk.extra["python_mirror_disagreements"] = mirror_disagree
+    cleanup_scratch()
 
 
 def replay(chk: Check, payload):
@@ -719,4 +730,5 @@ def replay(chk: Check, payload):
     for b in chk.broken:
         print("replay: broken", json.dumps(b)[:400])
     print("replay:", "STILL FAILING" if bad else "passes now")
+    cleanup_scratch()
     return 1 if bad else 0
